@@ -107,7 +107,7 @@ def write_evidence(ctx, level, coverage, assumptions, violations):
         evdir = os.path.join(os.environ.get("VERIF_SCRATCH_BASE", "/tmp"), "verif-evidence-other-checkout")
     os.makedirs(evdir, exist_ok=True)
     path = os.path.join(evdir, ctx.prop + ".json")
-    tmp = path + ".tmp"
+    tmp = "%s.%d.tmp" % (path, os.getpid())   # unique: two runs of one property may finish at the same time
     with open(tmp, "w") as f:
         json.dump(ev, f, indent=1, sort_keys=True, default=str)
     os.replace(tmp, path)
